@@ -136,6 +136,10 @@ def parse_output(text, res):
         if m:
             res.violated.append(m.group(1))
             continue
+        m = re.match(r"^Error: The invariant of (\w+) is equal to FALSE", s)
+        if m:
+            res.violated.append(m.group(1))
+            continue
         m = re.match(r"^Error: Action property (\w+) is violated", s) or re.match(
             r"^Error: Temporal properties were violated", s
         )
@@ -229,6 +233,7 @@ def run(
             if not x.startswith("Error: The behavior up to this point")
             and not x.startswith("Error: The following behavior")
             and "is violated" not in x
+            and "is equal to FALSE" not in x
         ]
         if "Parsing or semantic analysis failed" in p.stdout or "*** Errors:" in p.stdout:
             raise TLCError("SANY failed on %s:\n%s" % (module, p.stdout[-3000:]))
